@@ -23,7 +23,12 @@ from copy import deepcopy
 from typing import Dict, List, Set
 
 from xdis import wordcode
-from xdis.cross_dis import findlabels, findlinestarts, get_jump_target_maps
+from xdis.cross_dis import (
+    findlabels,
+    findlinestarts,
+    findlinestarts_unsigned,
+    get_jump_target_maps,
+)
 from xdis.version_info import IS_PYPY, PYTHON_VERSION_TRIPLE
 
 cmp_op = (
@@ -116,12 +121,13 @@ def init_opdata(loc, from_mod, version_tuple=None, is_pypy=False):
     loc["is_pypy"] = is_pypy
     loc["cmp_op"] = cmp_op
     loc["HAVE_ARGUMENT"] = HAVE_ARGUMENT
-    loc["findlinestarts"] = findlinestarts
     if version_tuple is None or version_tuple <= (3, 5):
+        loc["findlinestarts"] = findlinestarts_unsigned
         loc["findlabels"] = findlabels
         loc["get_jump_targets"] = findlabels
         loc["get_jump_target_maps"] = get_jump_target_maps
     else:
+        loc["findlinestarts"] = findlinestarts
         loc["findlabels"] = wordcode.findlabels
         loc["get_jump_targets"] = wordcode.findlabels
         loc["get_jump_target_maps"] = wordcode.get_jump_target_maps
